@@ -286,7 +286,30 @@ pub fn run_validate(args: &[String]) {
                 "append-after-output" => page.push(AddrValue { address: Felt::from(os + 10), value: Felt::from(16) }),
                 "insert-middle" => page.insert(plen + 1, AddrValue { address: Felt::from(initial_ap + 5), value: Felt::from(99) }),
                 "value+1@program" => page[1].value += Felt::ONE,
+                "seg:relocate+1" | "seg:relocate+1,stop-kept" => { page.remove(0); }
+                o if o.starts_with("seg:") => {}
                 o => panic!("pagedev {o}"),
+            }
+            {
+                // segment declarations: program = segments[0], execution = segments[1], output = segments[2]
+                let max_addr = Felt::TWO.pow(64u64) - Felt::ONE;
+                let sg = &mut pi.segments;
+                match pd {
+                    "seg:relocate+1" => { sg[0].begin_addr += Felt::ONE; sg[0].stop_ptr += Felt::ONE; }
+                    "seg:relocate+1,stop-kept" | "seg:program.begin+1" => sg[0].begin_addr += Felt::ONE,
+                    "seg:program.stop+1" => sg[0].stop_ptr += Felt::ONE,
+                    "seg:program.stop-1" => sg[0].stop_ptr -= Felt::ONE,
+                    "seg:initial_ap=max" => sg[1].begin_addr = max_addr,
+                    "seg:final_ap=max" => sg[1].stop_ptr = max_addr,
+                    "seg:final_ap=max-1" => sg[1].stop_ptr = max_addr - Felt::ONE,
+                    "seg:output.begin-1" => sg[2].begin_addr -= Felt::ONE,
+                    "seg:output.stop+1" => sg[2].stop_ptr += Felt::ONE,
+                    "seg:output.stop-1" => sg[2].stop_ptr -= Felt::ONE,
+                    "seg:execution.begin+1" => sg[1].begin_addr += Felt::ONE,
+                    "seg:execution.begin-1" => sg[1].begin_addr -= Felt::ONE,
+                    _ => {}
+                }
+                if pd == "seg:header" { pi.continuous_page_headers.push(ContinuousPageHeader { start_address: Felt::from(7), size: Felt::from(1), hash: Felt::from(9), prod: Felt::from(5) }); }
             }
             n += 1;
             let base_vals: Vec<Felt> = pi0.main_page.iter().map(|c| c.value).collect();
@@ -298,7 +321,7 @@ pub fn run_validate(args: &[String]) {
                 Err(p) => { panics += 1; if expect_ok { bad += 1; } out.line(&json!({"ok": false, "kind": "panic", "layout": layout, "pagedev": pd, "where": p, "why": "verify_public_input panicked"})); }
                 Ok(None) => if expect_ok { bad += 1; out.line(&json!({"ok": false, "kind": "verify", "layout": layout, "pagedev": pd, "why": "a main page with the cells at the right addresses was rejected"})); },
                 Ok(Some(h)) => {
-                    let want = if pd == "value+1@program" { let mut v = base_vals.clone(); v[1] += Felt::ONE; (chain(&v[..plen]), base_hashes.1) } else { base_hashes };
+                    let want = if pd == "seg:execution.begin-1" { (chain(&base_vals[..plen - 1]), base_hashes.1) } else if pd == "value+1@program" { let mut v = base_vals.clone(); v[1] += Felt::ONE; (chain(&v[..plen]), base_hashes.1) } else { base_hashes };
                     if !expect_ok && !(either && h == base_hashes) {
                         bad += 1;
                         out.line(&json!({"ok": false, "kind": "verify", "layout": layout, "pagedev": pd, "why": format!("main page perturbed by '{pd}' was hashed positionally instead of rejected (returned {:#x}, {:#x})", h.0, h.1)}));
